@@ -297,6 +297,9 @@ func ConvertString(octetString ...string) ([]string, error) {
 
 	for _, s := range octetString {
 		data := []byte(s)
+		if len(data) == 0 {
+			return nil, fmt.Errorf("%s: empty ber encoded string: %w", op, ErrInvalidParameter)
+		}
 
 		switch {
 		case
@@ -322,6 +325,9 @@ func ConvertString(octetString ...string) ([]string, error) {
 // it has an MIT license: https://github.com/go-asn1-ber/asn1-ber/blob/master/LICENSE
 func readLength(bytes []byte) (length int, read int, err error) {
 	// length byte
+	if len(bytes) == 0 {
+		return 0, read, errors.New("missing length byte")
+	}
 	b := bytes[0]
 	read++
 
@@ -350,6 +356,9 @@ func readLength(bytes []byte) (length int, read int, err error) {
 		// Accumulate into a 64-bit variable
 		var length64 int64
 		for i := 0; i < lengthBytes; i++ {
+			if read >= len(bytes) {
+				return 0, read, errors.New("truncated long-form length")
+			}
 			b = bytes[read]
 			read++
 
